@@ -272,6 +272,8 @@ def transition_lookup_rules(ctx):
                 if a_ is None or cs is None:
                     continue
                 sa, sb = S.fstr(a_), S.fstr(b_)
+                if re.match(r"index@bb\d+$", sa) or re.match(r"index@bb\d+$", sb):
+                    continue      # the guard of a counting loop (position < length), not a comparison of the search
                 ma, mb = re.match(r"(item@bb\d+)\.0$", sa), re.match(r"(item@bb\d+)\.0$", sb)
                 if sa == "token_type" and mb:
                     oset &= cs
